@@ -458,9 +458,9 @@ func genC05(c *Ctx) {
 			// split into periods with an availability offset: a new Period is listed at its start, the segment that ends
 			// there becomes available earlier, the first entry changes at yet another instant — around a period boundary
 			if ref := refRepOf(a); ref != nil && ref.ContentType == "video" && a.SegmentDurMS > 0 {
-				for _, pph := range []int{60, 30} {
+				for _, pph := range []int{60, 30, 7} { // 7: 3600/7 = 514 s, no divisor of the hour
 					pd := 3600 / pph
-					if pd*1000%a.SegmentDurMS != 0 || !periodStartsAligned(a, pd) || (!c.Thorough() && pph == 30 && ai%2 == 0) {
+					if pd*1000%a.SegmentDurMS != 0 || !periodStartsAligned(a, pd) || (!c.Thorough() && pph != 60 && ai%2 == (pph%2)) {
 						continue
 					}
 					cf := mkCfg(r.Pick(0, 0, 61), r.Pick(60, 30, 25), 0, r.Pick(500, 1500, 3500, 0), r.PickS("tlt", "tln", "n"))
